@@ -60,9 +60,13 @@ def bar_step(b, op):
     if t == "place_at":
         b.place_notes_at([to_py(i) for i in op[1]], num(op[2]))
         return None
-    if t == "set_meter":
+    if t == "place_at_entry":
+        at = b.bar[op[2]][0] if 0 <= op[2] < len(b.bar) else -1.0
+        b.place_notes_at([to_py(i) for i in op[1]], at)
+        return None
+    if t in ("set_meter", "set_meter_f"):
         try:
-            b.set_meter((op[1], num(op[2])))
+            b.set_meter((op[1], float(op[2]) if t == "set_meter_f" else num(op[2])))
         except TypeError:
             from mingus.containers.mt_exceptions import MeterFormatError
             raise MeterFormatError("meter rejected (the error message itself failed to format)")
